@@ -138,10 +138,10 @@ theorem InvLive.of_frame {s s' : State} (h : InvLive s) (hbat : BatFrame s s') (
     · rw [hB'] at hB''; cases hB''
       rw [hd] at hc; cases hc
 
-theorem lframe_bat_id {s s' : State} (e : s'.batches = s.batches) : BatFrame s s' :=
+theorem vframe_bat_id {s s' : State} (e : s'.batches = s.batches) : BatFrame s s' :=
   fun b B' h hd => Or.inr ⟨B', by rw [← e]; exact h, hd, rfl⟩
 
-theorem lframe_bat_upd {s s' : State} {b : Nat} {B B' : Batch} (hB : s.batches b = some B)
+theorem vframe_bat_upd {s s' : State} {b : Nat} {B B' : Batch} (hB : s.batches b = some B)
     (e : s'.batches = upd s.batches b (some B')) (h1 : B'.done = B.done) (h2 : B'.pw = B.pw) : BatFrame s s' := by
   intro x X' hx hd
   rw [e] at hx
@@ -149,10 +149,10 @@ theorem lframe_bat_upd {s s' : State} {b : Nat} {B B' : Batch} (hB : s.batches b
   · exact Or.inr ⟨B, hB, by rw [← h1]; exact hd, h2⟩
   · exact Or.inr ⟨X', hx, hd, rfl⟩
 
-theorem lframe_pws_id {s s' : State} (e : s'.pws = s.pws) : PwsFrame s s' :=
+theorem vframe_pws_id {s s' : State} (e : s'.pws = s.pws) : PwsFrame s s' :=
   fun pw P h => ⟨P, by rw [e]; exact h, fun _ hb => Or.inl hb⟩
 
-theorem lframe_pws_upd {s s' : State} {pw : Nat} {P P' : PW} (hP : s.pws pw = some P)
+theorem vframe_pws_upd {s s' : State} {pw : Nat} {P P' : PW} (hP : s.pws pw = some P)
     (e : s'.pws = upd s.pws pw (some P'))
     (hsub : ∀ b ∈ P.pipe, b ∈ P'.pipe ∨ ∃ B' c, s'.batches b = some B' ∧ B'.done = some c) : PwsFrame s s' := by
   intro x X hx
@@ -166,10 +166,10 @@ theorem mem_pipe_iff {P : PW} {y : Nat} :
   simp [PW.pipe, or_assoc]
 
 /-- a partition writer changes only in its sender, which keeps its batch -/
-theorem lframe_sender {s s' : State} {pw : Nat} {P : PW} {σ : Sender} (hP : s.pws pw = some P)
+theorem vframe_sender {s s' : State} {pw : Nat} {P : PW} {σ : Sender} (hP : s.pws pw = some P)
     (e : s'.pws = upd s.pws pw (some { P with sender := σ })) (hb : ∀ y, P.sender.batch? = some y → σ.batch? = some y) :
     PwsFrame s s' := by
-  refine lframe_pws_upd hP e ?_
+  refine vframe_pws_upd hP e ?_
   intro y hy
   rw [mem_pipe_iff] at hy
   refine Or.inl (mem_pipe_iff.mpr ?_)
@@ -188,7 +188,7 @@ theorem invLive_step (cfg : Cfg) (s : State) (e : Event) (s' : State) (hQ : InvC
     all_goals (first | (cases hs; done) | skip)
     rename_i hg
     cases hs
-    refine hI.of_frame (lframe_bat_id rfl) ?_
+    refine hI.of_frame (vframe_bat_id rfl) ?_
     intro x X hx
     have hne : x ≠ pw := by
       rintro rfl
@@ -201,7 +201,7 @@ theorem invLive_step (cfg : Cfg) (s : State) (e : Event) (s' : State) (hQ : InvC
     all_goals (first | (cases hs; done) | skip)
     rename_i _ P hP hg
     cases hs
-    refine hI.of_frame ?_ (lframe_pws_upd hP rfl ?_)
+    refine hI.of_frame ?_ (vframe_pws_upd hP rfl ?_)
     · intro x X' hx hd
       rcases upd_some_elim hx with ⟨rfl, rfl⟩ | ⟨-, hx⟩
       · refine Or.inl ⟨{ P with curr := some x, nbatches := P.nbatches + 1 }, by simp [Batch.new], ?_⟩
@@ -221,14 +221,14 @@ theorem invLive_step (cfg : Cfg) (s : State) (e : Event) (s' : State) (hQ : InvC
     all_goals (first | (cases hs; done) | skip)
     rename_i _ P hPq _ B hB _ C hC hg
     cases hs
-    exact hI.of_frame (lframe_bat_upd hB rfl rfl rfl) (lframe_pws_id rfl)
+    exact hI.of_frame (vframe_bat_upd hB rfl rfl rfl) (vframe_pws_id rfl)
   | detach pw b why size =>
     simp only [step, stepDetach] at hs
     repeat' split at hs
     all_goals (first | (cases hs; done) | skip)
     rename_i _ P hP _ B hB hg
     cases hs
-    refine hI.of_frame (lframe_bat_upd (B' := { B with detached := some why }) hB rfl rfl rfl) (lframe_pws_upd hP rfl ?_)
+    refine hI.of_frame (vframe_bat_upd (B' := { B with detached := some why }) hB rfl rfl rfl) (vframe_pws_upd hP rfl ?_)
     intro y hy
     rw [mem_pipe_iff] at hy
     refine Or.inl (mem_pipe_iff.mpr ?_)
@@ -250,7 +250,7 @@ theorem invLive_step (cfg : Cfg) (s : State) (e : Event) (s' : State) (hQ : InvC
         have := (hQ.closedQ pw P hP hqc).2.2
         rw [hg.1] at this; cases this
     subst hacc
-    refine hI.of_frame (lframe_bat_id rfl) (lframe_pws_upd hP rfl ?_)
+    refine hI.of_frame (vframe_bat_id rfl) (vframe_pws_upd hP rfl ?_)
     intro y hy
     rw [mem_pipe_iff] at hy
     refine Or.inl (mem_pipe_iff.mpr ?_)
@@ -266,7 +266,7 @@ theorem invLive_step (cfg : Cfg) (s : State) (e : Event) (s' : State) (hQ : InvC
     all_goals (first | (cases hs; done) | skip)
     · rename_i _ pw hq _ P hP _ b hg
       cases hs
-      refine hI.of_frame (lframe_bat_id rfl) (lframe_pws_upd hP rfl ?_)
+      refine hI.of_frame (vframe_bat_id rfl) (vframe_pws_upd hP rfl ?_)
       intro y hy
       rw [mem_pipe_iff] at hy
       refine Or.inl (mem_pipe_iff.mpr ?_)
@@ -286,7 +286,7 @@ theorem invLive_step (cfg : Cfg) (s : State) (e : Event) (s' : State) (hQ : InvC
       · exact Or.inr (Or.inr (Or.inr h))
     · rename_i _ pw hq _ P hP _ hg
       cases hs
-      refine hI.of_frame (lframe_bat_id rfl) (lframe_sender hP rfl ?_)
+      refine hI.of_frame (vframe_bat_id rfl) (vframe_sender hP rfl ?_)
       intro y h
       rw [hg.1] at h; cases h
   | qclose q =>
@@ -295,7 +295,7 @@ theorem invLive_step (cfg : Cfg) (s : State) (e : Event) (s' : State) (hQ : InvC
     all_goals (first | (cases hs; done) | skip)
     rename_i _ pw hq _ P hP hg
     cases hs
-    refine hI.of_frame (lframe_bat_id rfl) (lframe_pws_upd hP rfl ?_)
+    refine hI.of_frame (vframe_bat_id rfl) (vframe_pws_upd hP rfl ?_)
     intro y hy
     exact Or.inl hy
   | timerFire pw b att =>
@@ -304,14 +304,14 @@ theorem invLive_step (cfg : Cfg) (s : State) (e : Event) (s' : State) (hQ : InvC
     all_goals (first | (cases hs; done) | skip)
     rename_i _ P hP _ B hB hg
     cases hs
-    exact hI.of_frame (lframe_bat_upd (B' := { B with timerFired := true }) hB rfl rfl rfl) (lframe_pws_id rfl)
+    exact hI.of_frame (vframe_bat_upd (B' := { B with timerFired := true }) hB rfl rfl rfl) (vframe_pws_id rfl)
   | attempt pw b k =>
     simp only [step] at hs
     repeat' split at hs
     all_goals (first | (cases hs; done) | skip)
     rename_i _ P hP hg
     cases hs
-    refine hI.of_frame (lframe_bat_id rfl) (lframe_sender hP rfl ?_)
+    refine hI.of_frame (vframe_bat_id rfl) (vframe_sender hP rfl ?_)
     intro y h
     rw [hg.1] at h; exact h
   | produce pw tp msgs out =>
@@ -320,7 +320,7 @@ theorem invLive_step (cfg : Cfg) (s : State) (e : Event) (s' : State) (hQ : InvC
     all_goals (first | (cases hs; done) | skip)
     rename_i _ P hP _ b k hsend _ B hB hg
     cases hs
-    refine hI.of_frame (lframe_bat_upd (B' := B.noteProduce out) hB rfl rfl rfl) (lframe_sender hP rfl ?_)
+    refine hI.of_frame (vframe_bat_upd (B' := B.noteProduce out) hB rfl rfl rfl) (vframe_sender hP rfl ?_)
     intro y h
     rw [hsend] at h; exact h
   | attemptDone pw b k code =>
@@ -333,7 +333,7 @@ theorem invLive_step (cfg : Cfg) (s : State) (e : Event) (s' : State) (hQ : InvC
       unfold afterAttempt
       repeat' split
       all_goals rfl
-    refine hI.of_frame (lframe_bat_id rfl) (lframe_sender hP rfl ?_)
+    refine hI.of_frame (vframe_bat_id rfl) (vframe_sender hP rfl ?_)
     intro y h
     rw [hsend] at h
     rw [hbq, ← hg.1]; exact h
@@ -343,8 +343,8 @@ theorem invLive_step (cfg : Cfg) (s : State) (e : Event) (s' : State) (hQ : InvC
     all_goals (first | (cases hs; done) | skip)
     rename_i _ P hP _ B hB hg
     cases hs
-    refine hI.of_frame (lframe_bat_upd (B' := { B with ncompl := B.ncompl + 1, cbCode := some code }) hB rfl rfl rfl)
-      (lframe_sender hP rfl ?_)
+    refine hI.of_frame (vframe_bat_upd (B' := { B with ncompl := B.ncompl + 1, cbCode := some code }) hB rfl rfl rfl)
+      (vframe_sender hP rfl ?_)
     intro y h
     rw [hg.2] at h; exact h
   | complete pw b code =>
@@ -353,7 +353,7 @@ theorem invLive_step (cfg : Cfg) (s : State) (e : Event) (s' : State) (hQ : InvC
     all_goals (first | (cases hs; done) | skip)
     rename_i _ P hP _ B hB hg
     cases hs
-    refine hI.of_frame ?_ (lframe_pws_upd hP rfl ?_)
+    refine hI.of_frame ?_ (vframe_pws_upd hP rfl ?_)
     · intro x X' hx hd
       rcases upd_some_elim hx with ⟨rfl, rfl⟩ | ⟨-, hx⟩
       · cases hd
@@ -372,18 +372,18 @@ theorem invLive_step (cfg : Cfg) (s : State) (e : Event) (s' : State) (hQ : InvC
     cases why <;> simp only [step, stepReject] at hs <;> repeat' split at hs
     all_goals (first | (cases hs; done) | skip)
     all_goals (cases hs)
-    all_goals exact hI.of_frame (lframe_bat_id rfl) (lframe_pws_id rfl)
+    all_goals exact hI.of_frame (vframe_bat_id rfl) (vframe_pws_id rfl)
   | ret c r =>
     cases r <;> simp only [step, stepRet] at hs <;> repeat' split at hs
     all_goals (first | (cases hs; done) | skip)
     all_goals (cases hs)
-    all_goals exact hI.of_frame (lframe_bat_id rfl) (lframe_pws_id rfl)
+    all_goals exact hI.of_frame (vframe_bat_id rfl) (vframe_pws_id rfl)
   | _ =>
     simp only [step] at hs
     repeat' split at hs
     all_goals (first | (cases hs; done) | skip)
     all_goals (cases hs)
-    all_goals exact hI.of_frame (lframe_bat_id rfl) (lframe_pws_id rfl)
+    all_goals exact hI.of_frame (vframe_bat_id rfl) (vframe_pws_id rfl)
 
 theorem invLive (cfg : Cfg) (s : State) (hr : Reachable cfg s) : InvLive s :=
   (invariant_of_step cfg (fun s => InvClosedQ s ∧ InvLive s) ⟨invClosedQ_init, invLive_init⟩
